@@ -179,20 +179,20 @@ func (d vdesc) oci() ocispec.Descriptor {
 func readerPlans(c []byte) [][]rdEv {
 	cp := func(b []byte) []byte { return append([]byte(nil), b...) }
 	var plans [][]rdEv
-	plans = append(plans, []rdEv{{'d', cp(c)}})                        // one chunk, then EOF on next read
-	plans = append(plans, []rdEv{{'e', cp(c)}})                        // chunk with EOF piggy-backed
+	plans = append(plans, []rdEv{{'d', cp(c)}})                               // one chunk, then EOF on next read
+	plans = append(plans, []rdEv{{'e', cp(c)}})                               // chunk with EOF piggy-backed
 	plans = append(plans, []rdEv{{'d', cp(c)}, {'E', nil}, {'d', []byte{7}}}) // explicit EOF (then junk never read)
 	var bytewise []rdEv
 	for _, b := range c {
 		bytewise = append(bytewise, rdEv{'d', []byte{b}}, rdEv{'d', nil})
 	}
-	plans = append(plans, bytewise)                                   // bytewise with zero-length reads
-	plans = append(plans, []rdEv{{'x', cp(c)}})                        // all bytes, error on the same read
-	plans = append(plans, []rdEv{{'d', cp(c)}, {'X', nil}})            // all bytes, then error
+	plans = append(plans, bytewise)                         // bytewise with zero-length reads
+	plans = append(plans, []rdEv{{'x', cp(c)}})             // all bytes, error on the same read
+	plans = append(plans, []rdEv{{'d', cp(c)}, {'X', nil}}) // all bytes, then error
 	if len(c) >= 2 {
 		k := len(c) / 2
-		plans = append(plans, []rdEv{{'d', cp(c[:k])}, {'X', nil}})              // error at offset k
-		plans = append(plans, []rdEv{{'d', cp(c[:k])}, {'e', cp(c[k:])}})        // two chunks
+		plans = append(plans, []rdEv{{'d', cp(c[:k])}, {'X', nil}})       // error at offset k
+		plans = append(plans, []rdEv{{'d', cp(c[:k])}, {'e', cp(c[k:])}}) // two chunks
 		plans = append(plans, []rdEv{{'d', nil}, {'d', cp(c[:k])}, {'d', nil}, {'d', cp(c[k:])}, {'d', nil}})
 	}
 	return plans
